@@ -49,6 +49,9 @@ pub enum Family {
     ExpN(usize),
     /// e^{-p0 x} cos(p1 x + p2) (1 + p3 x) DECLARED as f(p0, p2, p1, p3) (interior permuted), e^{-p3 x}, 1
     Perm4,
+    /// e^{-x/tau}, 1 like Exp1Off, but the model REFUSES tau <= 0: the builder-made flavour's decay function (and its derivative)
+    /// returns an empty vector there (the model builder's own output check reports it), the hand-written flavour returns an error
+    GuardExp,
     /// x e^{-x/p0}, sin(p1 x): every basis function and every derivative vanishes at x = 0 (a zero row in Phi, J and H)
     XExpSin,
     /// hand-written only
@@ -68,6 +71,7 @@ impl Family {
             Family::ExpN(n) => format!("ExpN{}", n),
             Family::Perm4 => "Perm4".into(),
             Family::XExpSin => "XExpSin".into(),
+            Family::GuardExp => "GuardExp".into(),
             Family::PolyMat(s) => format!("PolyMat{}x{}x{}", s.n, s.m, s.p),
             Family::GenProd { m, p, inc } => {
                 let mut s = format!("GenProd{}x{}:", m, p);
@@ -93,6 +97,7 @@ impl Family {
             Family::ExpN(n) => *n,
             Family::Perm4 => 3,
             Family::XExpSin => 2,
+            Family::GuardExp => 2,
             Family::PolyMat(s) => s.m,
             Family::GenProd { m, .. } => *m,
         }
@@ -107,6 +112,7 @@ impl Family {
             Family::ExpN(n) => *n,
             Family::Perm4 => 4,
             Family::XExpSin => 2,
+            Family::GuardExp => 1,
             Family::PolyMat(s) => s.p,
             Family::GenProd { p, .. } => *p,
         }
@@ -114,7 +120,7 @@ impl Family {
     /// parameters function j depends on, in the function's own declaration order
     pub fn deps(&self, j: usize) -> Vec<usize> {
         match self {
-            Family::Exp1Off => {
+            Family::Exp1Off | Family::GuardExp => {
                 if j == 0 {
                     vec![0]
                 } else {
@@ -175,6 +181,7 @@ impl Family {
                 "OLeary" => Family::OLeary,
                 "Perm4" => Family::Perm4,
                 "XExpSin" => Family::XExpSin,
+                "GuardExp" => Family::GuardExp,
                 o if o.starts_with("ExpN") => Family::ExpN(o[4..].parse().expect("ExpN<n>")),
                 o => panic!("family {}", o),
             };
@@ -220,7 +227,7 @@ fn gp_dg<T: Sc>(k: usize, x: T, a: T) -> T {
 pub fn phi<T: Sc>(fam: &Family, j: usize, i: usize, x: T, a: &[T]) -> T {
     use num_traits::Float;
     match fam {
-        Family::Exp1Off => {
+        Family::Exp1Off | Family::GuardExp => {
             if j == 0 {
                 Float::exp(-x / a[0])
             } else {
@@ -292,7 +299,7 @@ pub fn dphi<T: Sc>(fam: &Family, j: usize, k: usize, i: usize, x: T, a: &[T]) ->
     use num_traits::Float;
     let zero = T::f(0.0);
     match fam {
-        Family::Exp1Off => {
+        Family::Exp1Off | Family::GuardExp => {
             if j == 0 && k == 0 {
                 x / (a[0] * a[0]) * Float::exp(-x / a[0])
             } else {
@@ -488,6 +495,9 @@ impl<T: Sc> SeparableNonlinearModel for Hand<T> {
     }
     fn eval(&self) -> Result<OMatrix<T, Dyn, Dyn>, MErr> {
         let a = self.a.as_slice();
+        if matches!(self.fam, Family::GuardExp) && !(a[0] > T::f(0.0)) {
+            return Err(MErr::Model("decay constant outside the model's domain".into()));
+        }
         Ok(DMatrix::from_fn(self.x.len(), self.fam.m(), |i, j| phi(&self.fam, j, i, self.x[i], a)))
     }
     fn eval_partial_deriv(&self, k: usize) -> Result<OMatrix<T, Dyn, Dyn>, MErr> {
@@ -495,6 +505,9 @@ impl<T: Sc> SeparableNonlinearModel for Hand<T> {
             return Err(MErr::Model("derivative index out of bounds".into()));
         }
         let a = self.a.as_slice();
+        if matches!(self.fam, Family::GuardExp) && !(a[0] > T::f(0.0)) {
+            return Err(MErr::Model("decay constant outside the model's domain".into()));
+        }
         Ok(DMatrix::from_fn(self.x.len(), self.fam.m(), |i, j| dphi(&self.fam, j, k, i, self.x[i], a)))
     }
 }
@@ -512,6 +525,9 @@ pub fn pname(k: usize) -> String {
 }
 
 fn col_phi<T: Sc>(fam: &Family, j: usize, deps: &[usize], x: &DVector<T>, sub: &[T]) -> DVector<T> {
+    if matches!(fam, Family::GuardExp) && j == 0 && !(sub[0] > T::f(0.0)) {
+        return DVector::zeros(0);
+    }
     let mut full = vec![T::f(f64::NAN); fam.p()];
     for (d, v) in deps.iter().zip(sub.iter()) {
         full[*d] = *v;
@@ -519,6 +535,9 @@ fn col_phi<T: Sc>(fam: &Family, j: usize, deps: &[usize], x: &DVector<T>, sub: &
     DVector::from_fn(x.len(), |i, _| phi(fam, j, i, x[i], &full))
 }
 fn col_dphi<T: Sc>(fam: &Family, j: usize, k: usize, deps: &[usize], x: &DVector<T>, sub: &[T]) -> DVector<T> {
+    if matches!(fam, Family::GuardExp) && j == 0 && !(sub[0] > T::f(0.0)) {
+        return DVector::zeros(0);
+    }
     let mut full = vec![T::f(f64::NAN); fam.p()];
     for (d, v) in deps.iter().zip(sub.iter()) {
         full[*d] = *v;
